@@ -474,6 +474,16 @@ def _elision_stats(acc, seq, alpha):
 
 
 def replay(ctx, case):
+    if case.get("waits"):
+        lists, bad = _wait_shard((case["acc"], case["seq"][0], 1)) if len(case["seq"]) == 1 else (0, [])
+        if len(case["seq"]) > 1:
+            from . import c04
+
+            core.bind_repo(need_codec=False)
+            alpha = dict(c04.alphabet(case["acc"]))
+            res, err = c04.run_list(case["acc"], [alpha[x] for x in case["seq"]])
+            return [h["what"] for h in (res["hazards"] if res else [])]
+        return [b[3] for b in bad]
     if case.get("unit"):
         core.bind_repo(need_codec=False)
         if case.get("illegal"):
@@ -539,10 +549,44 @@ def _key(key, name):
     return key
 
 
+WAIT_ALPHA = ["dmaF>Zt1mid", "dmaZt1mid>W", "convX4tilesB>Y", "convY>X4tilesB", "convX4tiles>Y", "convY>X4tiles", "dmaX>Y", "dmaY>X", "dmaF>Xtail", "dmaXtail>Z",
+              "convX>Y", "convY>X", "dmaF>LUT", "addXs>Y_lut", "maxpoolY>Z_lut", "dmaF>W", "convX>Y_w"]
+
+
+def _wait_shard(args):
+    """'waits precede the operation they guard': every list of <= 3 operations over DMAs, tiled feature maps (equal and unequal tile
+    heights), weight buffers and table users, through the public generator; the emitted stream (with its wait commands) is explored by the
+    asynchronous model of C04 - a missing wait shows as two conflicting activities in flight"""
+    from . import c04
+
+    acc, first, n = args
+    core.bind_repo(need_codec=False)
+    alpha = dict(c04.alphabet(acc))
+    out = []
+    lists = 0
+    for rest in itertools.product(WAIT_ALPHA, repeat=n - 1):
+        seq = (first,) + rest
+        res, err = c04.run_list(acc, [alpha[x] for x in seq])
+        if res is None:
+            continue
+        lists += 1
+        for h in res["hazards"]:
+            out.append((acc, seq, h["kind"], h["what"]))
+    return lists, out[:20]
+
+
 def run(ctx):
     core.bind_repo(need_codec=False)
     quick = ctx.tier == "quick"
     accs = ["ethos-u55-128", "ethos-u65-256", "ethos-u65-512"] if quick else list(isa.ACCELERATORS)
+    wseen = set()
+    for lists, bad in pmap(_wait_shard, [(a, f, n) for a in ("ethos-u55-64", "ethos-u55-128", "ethos-u65-512") for f in WAIT_ALPHA for n in ((1, 2) if quick else (1, 2, 3))]):
+        ctx.merge_counters(dict(wait_lists=lists))
+        for acc_, seq, kind, what in bad:
+            k = "waits|%s|%s|%s" % (acc_, kind, ">".join(seq[-2:]))
+            if k not in wseen:
+                wseen.add(k)
+                ctx.violation(k, "%s  [op list %s on %s]" % (what, list(seq), acc_), dict(waits=True, acc=acc_, seq=list(seq)))
     usable = {}
     for acc, ok, bad, out in pmap(_usable, [(a,) for a in accs]):
         usable[acc] = ok
